@@ -10,6 +10,12 @@ CLAIMED = {
             "Sampling, not enumeration. Trusted: SDK bank events as the record of movements (cross-checked against bank state every block); the model's fee tracks accepted authority updates and is compared with the stored params after every block."),
     "C02": ("5/C02", "Same simulation; the whole-chain balance sheet of every accepted coinswap transaction (all accounts, all denoms, all supplies) must equal exactly the traded coins between sender, recipient and the pools involved; bounds, deadlines (with deadlines expiring in flight), liquidity-token mint/burn, response amounts and the creation-fee split are judged per transaction; recipients equal to and different from the sender, fresh and blocked addresses.",
             "Sampling, not enumeration. Trusted: SDK bank events (cross-checked against bank state every block)."),
+    "C11": ("5/C11", "Every simulated history (all workload modules on one chain) is recorded as a block stream and executed again on fresh nodes inside the same simulation: a twin, a late joiner whose host clock the simulator moved forward by a log-uniform skew (1 ms .. 10 years; chain time placed on both sides of the host clock at every scale), a node restarted at block boundaries (down to every block), and a node that crashes after FinalizeBlock and before Commit and re-executes the block. App hash and every transaction result must agree block by block; exported genesis must agree between nodes and between two exports of one node; on divergence the stores are diffed to name module and key.",
+            "Sampling. The host clock is the testing/synctest fake clock (real time never read). Another CPU architecture or toolchain is not explored (amd64, go1.26.8 only)."),
+    "C12": ("5/C12", "At seeded block boundaries (and at the end of every history) the primary node's disk is cloned, the clone exported (as is, or after the modules' own PrepForZeroHeightGenesis), the genesis imported into a fresh application through InitChain (must be accepted) and, directly through the module manager, into a second one whose state is exported again (byte-equal module sections = fixpoint) and queried (workload modules render the queries about the durable objects they know; answers must be equal on source and target).",
+            "Sampling of reachable states by the workload; in-flight items a module documents as dropped are excluded by the modules' query lists."),
+    "C16": ("5/C16", "Parameter experiments on throw-away branches of the committed state at seeded block boundaries: generated parameter sets (interior, boundary, zero, huge, absent fields, invalid) of coinswap/farm/htlc/service/token go through the module's own MsgUpdateParams handler from non-authorities (must change nothing) and from the authority; a set the module's Validate rejects must not be stored (message and genesis import); for stored sets, sampled workload messages and the next begin/end block are executed under P and under the defaults, outcome classes compared: violation iff P panics where the defaults do not. Stored parameters of the real chain are validated after every block.",
+            "Sampling of the parameter space and of message/state combinations. Handlers are invoked through the app's message router on a branched context (no ante handler)."),
 }
 
 NOT_APPLICABLE = {
